@@ -87,14 +87,13 @@ def repo_frame(ex):
         if n_repo > 50:
             fr = [f for f in frames if os.path.abspath(f.filename).startswith(prefix)][-1]
             return (fr.name, os.path.abspath(fr.filename)[len(prefix):], fr.lineno)
-    last = frames[-1]
-    if os.path.abspath(last.filename).startswith(prefix):
-        return (last.name, os.path.abspath(last.filename)[len(prefix):], last.lineno)
-    # numpy / scipy frames below a repository frame still count as "raised by the repository call"
+    # walk outwards from the innermost frame: the first frame that belongs to the repository or to this harness decides
+    # (library frames below it - numpy, scipy, multiprocessing re-raising a worker's exception - are attributed to their caller)
+    harness = os.path.abspath(env.VERIF) + os.sep
     for fr in reversed(frames):
         fn = os.path.abspath(fr.filename)
         if fn.startswith(prefix):
-            if 'site-packages' in frames[-1].filename or frames[-1].filename.startswith('<'):
-                return (fr.name, fn[len(prefix):], fr.lineno)
+            return (fr.name, fn[len(prefix):], fr.lineno)
+        if fn.startswith(harness):
             return None
     return None
